@@ -853,6 +853,10 @@ def ties_wallets(tier, seed):
         out.append(build_wallet(seed, "A", 2, net, [0, 2, 0], key_ids=[0, 0, 1], kinds=["std", "multisig", "std"], tag=f"2of3/{net}/X@0,Zpub(X)@2,Y@0"))
         if tier == "thorough":
             out.append(build_wallet(seed, "A", 3, net, [0, 1, 2, 0], key_ids=[0, 0, 0, 1], tag=f"3of4/{net}/X@0,X@1,X@2,Y@0"))
+        # DIFFERENT xpubs that carry the SAME master fingerprint and the same account index (one seed contributing
+        # several accounts, or a coordinator writing 00000000 for unknown fingerprints)
+        out.append(build_wallet(seed, "A", 2, net, [0, 0, 0], xfps=["00000000"] * 3, paths=[f"m/48h/1h/{i}h/2h" for i in range(3)], tag=f"2of3/{net}/three-xpubs-one-xfp-00000000"))
+        out.append(build_wallet(seed, "A", 1, net, [3, 3], xfps=["5a5a5a5a"] * 2, paths=["m/48h/1h/0h/2h", "m/48h/1h/1h/2h"], tag=f"1of2/{net}/two-xpubs-one-xfp@3"))
     return out
 
 
@@ -880,7 +884,7 @@ def run_ties(case):
         d = attempt(P2.parse, ref_text(w, std))
     gs = d if isinstance(d, Rejected) else attempt(state_of, d)
     if isinstance(gs, Rejected):
-        res.violation(f"C16/ties/{route}-rejected", vc, repr(gs), "descriptor object", "valid wallet (one xpub used at two account indexes) rejected")
+        res.violation(f"C16/ties/{route}-rejected", vc, repr(gs), "descriptor object", "valid wallet (one xpub used at two account indexes, or several xpubs under one fingerprint) rejected")
         return res
     # text: Core checksum of the emitted body; the records are exactly the supplied ones (standardised), ascending by xpub
     # when built from key records (the order among records with the same xpub is not prescribed)
@@ -1235,7 +1239,7 @@ def engines(tier, seed):
             kind="E1",
             chunk=1,
             rule="wallets in which one cosigner xpub occurs at several account indexes (equal sort keys): {X@0, X@2, Y@0} 2-of-3, {X@0, X@1} 1-of-2 (the change branch of the first record is the receive "
-            "branch of the second), {X@0, Zpub(X)@2, Y@0} (thorough: both networks, 3-of-4 {X@0,X@1,X@2,Y@0}); EVERY supply order through the constructor (thorough: also through parse() of the text "
+            "branch of the second), {X@0, Zpub(X)@2, Y@0}, and wallets whose DIFFERENT xpubs share one master fingerprint and one account index (three xpubs under 00000000, two under 5a5a5a5a at account 3) (thorough: both networks, 3-of-4 {X@0,X@1,X@2,Y@0}); EVERY supply order through the constructor (thorough: also through parse() of the text "
             "in that order). Checks: checksum == Core checksum of the emitted body; the object holds exactly the supplied records, xpub-ascending (constructor) / in text order (parse) - no order is "
             "demanded among records with equal xpub; parse(str(d)) reproduces d; get_address(1, receive/change) == reference P2WSH of the sorted child keys (hence identical for all orders); "
             "receive != change. Non-trivial = every (wallet, order)",
